@@ -462,7 +462,7 @@ pub fn run(ctx: &Ctx) -> i32 {
         property: "C13",
         tier,
         seed: ctx.seed,
-        scenarios: tier.pick(1_000, 30_000),
+        scenarios: tier.pick(8_000, 200_000),
         threads: super::threads(),
         watchdog: Duration::from_secs(180),
         budget: Duration::from_secs(tier.pick(90, 900)),
